@@ -15,7 +15,7 @@ func init() { families["lru"] = runLRU }
 func runLRU(seed uint64, n int, tier string, out string, replay string) {
 	rnd := hx.NewRand(seed)
 	sum := hx.NewSummary("lru", seed)
-	sum.Rule = "one case = one dispatcher size S with a generated op sequence (92% get-or-create / 8% remove; half of the accesses on a hot tenth of the population; 60% of the new entries are left mid-fetch); sizes: every S in 1..n plus boundary sizes (1023,1024,1025, <=0 defaults); for large S the key population is rejection-sampled into 3 shards so that evictions occur; non-trivial = more entries were created than were ever resident (an eviction or removal + re-creation happened); distinct by (S, #ops, #entries created); plus 8 reload scenarios (a registered cache re-applied under the same name with a smaller / larger / equal size, then 3x the larger size + 500 distinct keys: resident keys must stay within the larger size)"
+	sum.Rule = "one case = one dispatcher size S with a generated op sequence (92% get-or-create / 8% remove; half of the accesses on a hot tenth of the population; 60% of the new entries are left mid-fetch); sizes: every S in 1..n plus boundary sizes (1023,1024,1025, <=0 defaults); for large S the key population is rejection-sampled into 3 shards so that evictions occur; non-trivial = more entries were created than were ever resident (an eviction or removal + re-creation happened); distinct by (S, #ops, #entries created); plus 8 reload scenarios (a registered cache re-applied under the same name with a smaller / larger / equal size, then 3x the larger size + 500 distinct keys: resident keys must stay within the larger size) and 5 configurations with 2-4 caches of different sizes in every order (each cache keeps to its own size)"
 	header := "From Coq Require Import List NArith ZArith.\nImport ListNotations.\nFrom Pike Require Import Model.Dispatcher Corr.C11Corr.\nFrom PikeRun Require Import Consts.\n"
 	w := hx.NewCaseWriter(out, "lru", header, "list lru_case", "check_cases Consts.disp_consts", 8, sum)
 	distinct := hx.NewDistinct()
@@ -169,6 +169,33 @@ func runLRU(seed uint64, n int, tier string, out string, replay string) {
 		sum.Count("reload-resize")
 		if worst > bound {
 			sum.ImplViolations = append(sum.ImplViolations, map[string]interface{}{"property": "C11", "kind": "resident-exceeds-size-after-reload", "size_before": p[0], "size_after": p[1], "max_resident": worst, "requests_after_reload": 3*bound + 500})
+		}
+	}
+	// several caches in ONE configuration, sizes in every order: each must keep to its own size
+	for _, sizes := range [][]int{{1, 2000}, {8, 64, 2000}, {2000, 8}, {100, 3, 1000, 16}, {16, 16, 16}} {
+		cache.ResetDispatchers(nil)
+		var cfg []config.CacheConfig
+		for i, sz := range sizes {
+			cfg = append(cfg, config.CacheConfig{Name: fmt.Sprintf("mc%d", i), Size: sz, HitForPass: "5m"})
+		}
+		cache.ResetDispatchers(cfg)
+		for i, sz := range sizes {
+			d := cache.GetDispatcher(fmt.Sprintf("mc%d", i))
+			worst := 0
+			for k := 0; k < 3*sz+300; k++ {
+				d.GetHTTPCache([]byte(fmt.Sprintf("GET multi.example /m/%d/%d", i, k)))
+				res := 0
+				for _, l := range d.VerifResident() {
+					res += l
+				}
+				if res > worst {
+					worst = res
+				}
+			}
+			sum.Count("multi-cache-config")
+			if worst > sz {
+				sum.ImplViolations = append(sum.ImplViolations, map[string]interface{}{"property": "C11", "kind": "resident-exceeds-own-size-in-multi-cache-config", "sizes_in_config": sizes, "cache_index": i, "size_before": sz, "size_after": sz, "max_resident": worst})
+			}
 		}
 	}
 	cache.ResetDispatchers(nil)
